@@ -213,9 +213,18 @@ func c08Sync(p vbase.Params, r *vbase.Result) {
 					other := hotstuff.ID(2 + (int(sender)-2+1)%(nn-1))
 					o := c.honestTimeout(other, tv, si, agg)
 					tm.ViewSignature = o.ViewSignature
-				case kind == 7: // garbage view signature (signature over another message)
-					g, _ := c.W.M(sender).Auth.Sign([]byte("not the view"))
-					tm.ViewSignature = g
+				case kind == 7: // garbage view signature (signature over another message, or the sender's signature for a view 2^32 / 2^16 later)
+					switch rng.Intn(3) {
+					case 0:
+						g, _ := c.W.M(sender).Auth.Sign([]byte("not the view"))
+						tm.ViewSignature = g
+					case 1:
+						g, _ := c.W.M(sender).Auth.Sign((tv + 1<<32).ToBytes())
+						tm.ViewSignature = g
+					default:
+						g, _ := c.W.M(sender).Auth.Sign((tv + 1<<16).ToBytes())
+						tm.ViewSignature = g
+					}
 				case kind == 8 && agg: // message signature of another replica / over another message
 					if rng.Bool() {
 						other := hotstuff.ID(2 + (int(sender)-2+1)%(nn-1))
